@@ -51,7 +51,7 @@ def run(ctx, rep):
     rng = ctx.rng
     rep.rule = ("random equations with 0..5 constants (unused constants, constants making the residual non-finite, more constants than data "
                 "points) x all scipy methods bingo lists x metrics mae/mse/rmse; individuals that do / do not need optimization; "
-                "EquationRegressor.fit with 0..3 retries; distinct = distinct (equation, data, method, metric); non-trivial = optimizer invoked")
+                "EquationRegressor.fit with 0..3 retries; sequences with stack changes, constants set by hand and replaced data while a stale fitness is stored; one optimizer serving many individuals; distinct = distinct (equation, data, method, metric); non-trivial = optimizer invoked")
     rep.assumptions = ["scipy returns a parameter vector of the length it was given (checked on every run)"]
     lines, meta = [], []
     for t in range(ctx.n(250, 3000)):
